@@ -1,0 +1,24 @@
+//go:build verif
+
+package block
+
+// Contracts for govc (/verif). Comment-only file: no executable code, not part of the default build.
+// Generated protobuf getters used by core/dblookupext (C46): nil-safe field reads.
+
+/*@
+func (m *MiniBlock) GetSenderShardID() (r uint32)
+  ensures field: m != nil ==> r == m.SenderShardID
+  assigns nothing
+
+func (m *MiniBlock) GetReceiverShardID() (r uint32)
+  ensures field: m != nil ==> r == m.ReceiverShardID
+  assigns nothing
+
+func (m *ShardData) GetShardID() (r uint32)
+  ensures field: m != nil ==> r == m.ShardID
+  assigns nothing
+
+func (m *ShardData) GetShardMiniBlockHeaders() (r []MiniBlockHeader)
+  ensures field: m != nil ==> r == m.ShardMiniBlockHeaders
+  assigns nothing
+@*/
